@@ -381,3 +381,29 @@ func digsAt(buf []byte, p, l int) bool {
 func bytesEq(a, b []byte) bool {
 	return len(a) == len(b) && forall(0, len(b), func(k int) bool { return a[k] == b[k] })
 }
+
+// ---- list objects (C12) ----
+
+func hdrZero(h *Hdr) bool           { return *h == Hdr{} }
+func uriParamZero(p *URIParam) bool { return *p == URIParam{} }
+func uriHdrZero(h *URIHdr) bool     { return *h == URIHdr{} }
+
+// contWF: every element beyond the one in progress is in its initial state (this is what Reset may rely on:
+// the parsers only ever write the element in progress).
+func contWF(c *PContacts) bool {
+	return 0 <= c.N && c.N < 1<<40 && blockSep(c, c.Vals) && forall(c.N+1, len(c.Vals), func(k int) bool { return fbZero(&c.Vals[k]) })
+}
+
+func contAllZero(c *PContacts) bool {
+	return c.N == 0 && c.HNo == 0 && c.MaxExpires == 0 && c.MinExpires == 0 && c.LastHVal == PField{} &&
+		c.last == PFromBody{} && c.first == PFromBody{} &&
+		forall(0, len(c.Vals), func(k int) bool { return fbZero(&c.Vals[k]) })
+}
+
+func uparWF(l *URIParamsLst) bool {
+	return 0 <= l.N && l.N < 1<<40 && blockSep(l, l.Params) && forall(l.N+1, len(l.Params), func(k int) bool { return uriParamZero(&l.Params[k]) })
+}
+
+func uhdrWF(l *URIHdrsLst) bool {
+	return 0 <= l.N && l.N < 1<<40 && blockSep(l, l.Hdrs) && forall(l.N+1, len(l.Hdrs), func(k int) bool { return uriHdrZero(&l.Hdrs[k]) })
+}
